@@ -1,8 +1,8 @@
 #!/usr/bin/env python3
 """usage: seedcheck.py <seed-name> <source dir with patch.diff/demo.py/meta.json> <ID>[:tier] [<ID>[:tier] ...]
-Copies the seeded change into /verif/seeded/<seed-name>/, applies it to /repo, runs the repository's tests, the
-demonstration and the named checks, reverts /repo, re-runs the demonstration, and records everything in
-/verif/seeded/<seed-name>/verified.json.  /repo must be clean; it is left clean."""
+Copies the seeded change into /verif/seeded/<seed-name>/, applies it to a scratch worktree of /repo's HEAD, runs the
+repository's tests, the demonstration and the named checks against that worktree (VERIF_REPO), re-runs the demonstration
+on the unchanged worktree, removes the worktree and records everything in /verif/seeded/<seed-name>/verified.json."""
 import json, os, shutil, subprocess, sys, time
 name, src = sys.argv[1], sys.argv[2]
 checks = sys.argv[3:]
@@ -15,24 +15,23 @@ def sh(cmd, cwd=None, timeout=3600, env=None):
     e = dict(os.environ); e.update(env or {})
     p = subprocess.run(cmd, shell=True, cwd=cwd, stdout=subprocess.PIPE, stderr=subprocess.STDOUT, timeout=timeout, env=e)
     return p.returncode, p.stdout.decode("utf-8", "replace")
-rc, out = sh("git status --porcelain", "/repo")
-if out.strip():
-    print("repo dirty"); sys.exit(2)
-rc, out = sh("git apply %s/patch.diff" % dst, "/repo")
+# The change is applied to a scratch worktree of /repo's HEAD, never to /repo itself; the checks are pointed at it
+# through VERIF_REPO and write their evidence to a scratch directory (the committed evidence stays that of /repo).
+wt = "/tmp/seedrun_" + name
+sh("git worktree remove --force %s" % wt, "/repo")
+rc, out = sh("git worktree add --detach %s HEAD" % wt, "/repo")
 if rc != 0:
-    print("patch does not apply:", out); sys.exit(2)
+    print("cannot create worktree:", out); sys.exit(2)
 res = {"seed": name, "at": time.strftime("%Y-%m-%dT%H:%M:%SZ", time.gmtime()), "repo_head": sh("git rev-parse --short HEAD", "/repo")[1].strip()}
 try:
-    rc, out = sh("/venv/bin/python -m pytest -q -p no:cacheprovider --timeout=900", "/repo")
+    rc, out = sh("git apply %s/patch.diff" % dst, wt)
+    if rc != 0:
+        print("patch does not apply:", out); sys.exit(2)
+    rc, out = sh("/venv/bin/python -c 'import stackscope; print(stackscope.__file__)'", wt, env={"PYTHONPATH": wt})
+    assert wt in out, out
+    rc, out = sh("/venv/bin/python -m pytest -q -p no:cacheprovider --timeout=900 stackscope/_tests", wt, env={"PYTHONPATH": wt})
     res["tests_with_change"] = out.strip().splitlines()[-1]
-    interp = "/venv/bin/python"
-    demo_env = {"PYTHONPATH": "/repo"}
-    meta = {}
-    try:
-        meta = json.load(open(dst + "/meta.json"))
-    except Exception:
-        pass
-    rc, out = sh("timeout 600 %s demo.py" % interp, dst, env=demo_env)
+    rc, out = sh("timeout 600 /venv/bin/python demo.py", dst, env={"PYTHONPATH": wt})
     res["demo_exit_with_change"] = rc
     res["demo_tail_with_change"] = out.strip()[-400:]
     res["checks"] = {}
@@ -40,7 +39,7 @@ try:
         cid, _, tier = c.partition(":")
         tier = tier or "quick"
         t0 = time.time()
-        rc, out = sh("./vcheck %s %s" % (cid, tier), "/verif", timeout=4 * 3600)
+        rc, out = sh("./vcheck %s %s" % (cid, tier), "/verif", timeout=4 * 3600, env={"VERIF_REPO": wt, "VERIF_EVIDENCE_DIR": "/tmp/seedrun_evidence"})
         vio = [l for l in out.splitlines() if l.startswith("VIOLATION")]
         first = ""
         lines = out.splitlines()
@@ -48,10 +47,11 @@ try:
             if l.startswith("VIOLATION") and i + 1 < len(lines):
                 first = lines[i + 1].strip()[:500]; break
         res["checks"]["%s:%s" % (cid, tier)] = {"exit": rc, "violation_lines": len(vio), "first_detail": first, "wall_s": round(time.time() - t0, 1)}
+    sh("git checkout -- .", wt)
+    rc, out = sh("timeout 600 /venv/bin/python demo.py", dst, env={"PYTHONPATH": wt})
+    res["demo_exit_without_change"] = rc
 finally:
-    sh("git checkout -- .", "/repo")
-rc, out = sh("timeout 600 /venv/bin/python demo.py", dst, env={"PYTHONPATH": "/repo"})
-res["demo_exit_without_change"] = rc
-res["repo_clean_after"] = sh("git status --porcelain", "/repo")[1].strip() == ""
+    sh("git worktree remove --force %s" % wt, "/repo")
+res["how"] = "scratch worktree of /repo HEAD + VERIF_REPO override; /repo itself untouched"
 json.dump(res, open(dst + "/verified.json", "w"), indent=1)
 print(json.dumps(res, indent=1)[:2500])
